@@ -269,6 +269,86 @@ def merge():
     )
 
 
+CHECK_T = pyvc.rec_type(**{'__typename': 'U', 'context': 'U', 'state': 'U', 'name': 'U', 'conclusion': 'U', 'isRequired': 'bool'})
+
+
+def update_github(first_page_has_rollup=True):
+    """PR._update_github: every page of the head commit's status rollup is fetched (cursor of the previous page) and every
+    required check of every page ends up in last_known_github_status under its own name with its mapped state; the review
+    state becomes 'approved' only for the decision APPROVED."""
+
+    def setup(eng, st):
+        st.env['self'].fields['target_branch'] = _tb(st)
+
+    def page_nodes(eng, pg):
+        return pyvc.from_z3(eng.uf('page_nodes', ['int'], ('list', CHECK_T))(pg), ('list', CHECK_T))
+
+    def post(eng, st, args, kw, node):
+        pg = st.env['PG']
+        cur = st.env.get('cursor')
+        prev_cur = eng.uf('page_cursor', ['int'], 'U')(pg - 1)
+        eng.oblige(st, 'paging/next-page-is-requested-with-the-cursor-of-the-previous-one', z3.If(pg == 0, eng.is_none(cur), eng.equal(cur, prev_cur) if cur is not None else z3.BoolVal(False)))
+        nodes = page_nodes(eng, pg)
+        st.assume(nodes.len >= 0)
+        st.assume(z3.Not(eng.is_none(eng.uf('page_cursor', ['int'], 'U')(pg))))
+        rollup = SRecord('dict', {'contexts': SRecord('dict', {'nodes': nodes, 'pageInfo': SRecord('dict', {'hasNextPage': eng.uf('page_has_next', ['int'], 'bool')(pg), 'endCursor': eng.uf('page_cursor', ['int'], 'U')(pg)})})})
+        if not first_page_has_rollup:
+            rollup = None
+        else:
+            st.env['ALL'] = eng.concat([st.env['ALL'], nodes])
+        st.env['PG'] = pg + 1
+        pr = SRecord('dict', {'reviewDecision': eng.uf('page_review_decision', ['int'], 'U')(pg), 'commits': SRecord('dict', {'nodes': (SRecord('dict', {'commit': SRecord('dict', {'statusCheckRollup': rollup})}),)})})
+        return SRecord('dict', {'data': SRecord('dict', {'repository': SRecord('dict', {'pullRequest': pr})})})
+
+    def srs(eng, st, args, kw, node):
+        st.env['self'].fields['review_state'] = to_z3(args[0], 'U')
+        return None
+
+    def gs(eng, st, args, kw, node):
+        return eng.uf('gs', ['U'], 'U')(to_z3(args[0], 'U'))
+
+    name_of = "(results[%s]['context'] if results[%s]['__typename'] == 'StatusContext' else results[%s]['name'])"
+    state_of = "(results[%s]['state'] if results[%s]['__typename'] == 'StatusContext' else results[%s]['conclusion'])"
+    nm = lambda v: name_of % (v, v, v)
+    stt = lambda v: state_of % (v, v, v)
+    return Contract(
+        path=PATH,
+        qualname='PR._update_github',
+        label='PR._update_github[%s]' % ('rollup-present' if first_page_has_rollup else 'no-rollup'),
+        types={'results': ('list', CHECK_T), 'ALL': ('list', CHECK_T), 'last_known_github_status': 'Map[U, U]', 'cursor': 'U', 'review_decision': 'U'},
+        self_fields=dict(PR_FIELDS),
+        setup=setup,
+        spec_funcs={'page_nodes': (['int'], ('list', CHECK_T)), 'page_cursor': (['int'], 'U'), 'page_has_next': (['int'], 'bool'), 'page_review_decision': (['int'], 'U'), 'gs': (['U'], 'U')},
+        calls={
+            'gh.post': post, 'self.set_review_state': srs, 'github_status': gs,
+            'log.info': lambda eng, st, args, kw, node: None, 'log.error': lambda eng, st, args, kw, node: None,
+            'self.short_str': lambda eng, st, args, kw, node: z3.Const('short', pyvc.U),
+        },
+        ghost_init={'PG': '0', 'ALL': '[]'},
+        loops={
+            0: LoopSpec(invariants=[
+                ('results-are-the-nodes-of-all-pages-fetched-so-far', 'len(results) == len(ALL) and forall(lambda t: implies(0 <= t < len(ALL), results[t] == ALL[t]))'),
+                ('pages-fetched', 'PG >= 0 and (PG == 0) == (cursor is None)'),
+                ('cursor-is-the-last-page-cursor', 'implies(PG > 0, cursor == page_cursor(PG - 1))'),
+                ('review-decision-from-the-first-page', "implies(PG > 0, review_decision == (page_review_decision(0) if page_review_decision(0) is not None else 'API_NONE'))"),
+                ('no-decision-before-the-first-page', 'implies(PG == 0, review_decision is None)'),
+            ], modifies=['PG', 'ALL', 'rollup', 'pull_request', 'review_decision', 'results', 'cursor']),
+            1: LoopSpec(index='ci', invariants=[
+                ('required-checks-so-far-are-recorded', "forall(lambda t: implies(0 <= t < ci and results[t]['isRequired'], %s in last_known_github_status))" % nm('t')),
+            ]),
+        },
+        requires=["forall(lambda t: implies(0 <= t, results_ok(t)))"] if False else [],
+        ensures=[
+            ('all-pages-fetched', 'PG >= 1' + (' and not page_has_next(PG - 1)' if first_page_has_rollup else '')),
+            ('results-are-the-nodes-of-all-pages', 'len(results) == len(ALL) and forall(lambda t: implies(0 <= t < len(ALL), results[t] == ALL[t]))'),
+            ('every-required-check-of-every-page-is-recorded', "forall(lambda t: implies(0 <= t < len(results) and results[t]['isRequired'], %s in self.last_known_github_status))" % nm('t')),
+            ('approved-only-for-the-decision-APPROVED', "implies(self.review_state == 'approved', page_review_decision(0) == 'APPROVED' or old(self.review_state) == 'approved')"),
+        ],
+        raises={'ValueError': True},
+        canaries=[('never-more-than-one-page', 'PG == 1')] if first_page_has_rollup else [],
+    )
+
+
 def scans(ctx):
     tree = pyast.parse(core.read_repo(PATH))
     sb = pyvc.find_function(tree, 'PR._start_build')
@@ -308,11 +388,11 @@ def scans(ctx):
 
 
 def build(ctx):
-    for c in (up_to_date(), mergeable(), update_batch(), update_from_gh_json(), try_to_merge(), merge()):
+    for c in (up_to_date(), mergeable(), update_batch(), update_from_gh_json(), update_github(True), update_github(False), try_to_merge(), merge()):
         e = pyvc.Engine(ctx, c).run()
-        _strict(ctx, e, c.qualname)
+        _strict(ctx, e, c.label or c.qualname)
     scans(ctx)
     ctx.witness_search = lambda: core.run_native(open(os.path.join(os.path.dirname(__file__), 'native', 'c30_replay.py')).read(), {})
     ctx.assume('GitHub: PUT /pulls/N/merge with {sha: S} merges only if the PR head is still S (stale-head protection), and a successful merge moves the target branch to a new commit')
     ctx.assume('WatchedBranch._update serialises updates of one branch (the `updating` flag); statuses are re-read for the current head (commits(last: 1)) in the same update pass before try_to_merge')
-    ctx.undecided('PR._update_github (GraphQL paging, mapping of review decision and check conclusions) and _update_batch listing order are not under contract here')
+    ctx.undecided('utils.github_status (which GraphQL states count as SUCCESS: SUCCESS and NEUTRAL) is an uninterpreted function here; _update_batch relies on the listing being newest-first')
